@@ -15,7 +15,10 @@ The model is of the tree with `fix: negative index …` applied (`OpOperands.__s
 `OpSuccessors.__setitem__`, `Operation.detach_region` normalise a negative index).
 
 Deviations, all unobservable: `Use` objects get ids from a counter; erased objects are flagged
-`dead` and their link fields are reset (Python leaves stale pointers inside erased subtrees);
+`dead` and their link fields are reset (Python leaves stale pointers inside erased subtrees: an
+erased operation keeps its `regions` tuple although `Region.drop_all_references` nulls the regions'
+`parent`; the model empties the tuple, so that "listed in `regions` ↔ points back" also holds for
+erased operations);
 `name_hint`s, types, attributes, locations are not modelled; an `ErasedSSAValue` is created only
 when the erased value still has uses and is given the id `E_BASE + id of the erased value`.
 
@@ -246,7 +249,8 @@ def dropOne (s : IRStore) : Ref → IRStore
     let d := s.op! o
     let s := (d.operands.zip d.operandUses).foldl (fun s p => s.removeUseV p.1 p.2) s
     let s := (d.successors.zip d.successorUses).foldl (fun s p => s.removeUseB p.1 p.2) s
-    let s := s.setOp o { d with operands := [], operandUses := [], successors := [], successorUses := [] }
+    let s := s.setOp o { d with operands := [], operandUses := [], successors := [], successorUses := [],
+                                regions := [] }
     { s with opL := s.opL.setNd o {}, deadO := o :: s.deadO, deadV := d.results ++ s.deadV }
   | .block b =>
     { s with opL := s.opL.setEn b {}, blockL := s.blockL.setNd b {}, deadB := b :: s.deadB,
